@@ -1100,8 +1100,9 @@ lyb_print_node_any(struct ly_out *out, struct lyd_node_any *anydata, struct lyd_
         assert(len != -1);
         str = anydata->value.mem;
     } else {
-        len = strlen(anydata->value.str);
-        str = anydata->value.str;
+        /* the value may have been freed (lyd_any_copy_value() with no value), print it as an empty string */
+        str = anydata->value.str ? anydata->value.str : "";
+        len = strlen(str);
     }
 
     /* followed by the content */
